@@ -629,7 +629,10 @@ func ownDisposition(r *Run, fn *ssa.Function, e *feEnd, acq *ssa.Call, R ssa.Val
 // ---------------------------------------------------------------------------
 // OWN-WRAP / ERR-CHAIN: wrapper types
 
-func ruleOwnWrap(r *Run, rels []string) {
+func ruleOwnWrap(r *Run, rels []string) { ruleOwnWrapScoped(r, rels, 10) }
+
+// ruleOwnWrapScoped: the wrapper cross-check on the given packages with the given inventory floor.
+func ruleOwnWrapScoped(r *Run, rels []string, floor int) {
 	p := r.P
 	n := 0
 	for _, rel := range rels {
@@ -797,7 +800,7 @@ func ruleOwnWrap(r *Run, rels []string) {
 	r.count("wrapper_types", n)
 	inv := r.Ob("OWN-WRAP", "inventory", "at least the confirmed number of wrapper types is analysed")
 	inv.Trivial = true
-	inv.Check(n >= 10, "-", fmt.Sprintf("%d wrapper types", n), fmt.Sprintf("only %d wrapper types found, floor 10", n))
+	inv.Check(n >= floor, "-", fmt.Sprintf("%d wrapper types", n), fmt.Sprintf("only %d wrapper types found, floor %d", n, floor))
 }
 
 func fieldHasMethod(st *types.Struct, field, method string) bool {
